@@ -94,7 +94,7 @@ def strip_comments(s):
 
 TOK = re.compile(r"""
    (?P<ws>\s+)
- | (?P<str>"(?:\\.|[^"\\])*")
+ | (?P<str>"(?:\\[\s\S]|[^"\\])*")
  | (?P<num>0x[0-9a-fA-F_]+(?:[ui](?:8|16|32|64|128|size))? | 0b[01_]+(?:[ui](?:8|16|32|64|128|size))?
           | [0-9][0-9_]*(?:[ui](?:8|16|32|64|128|size))?)
  | (?P<life>'[a-z_]\w*(?!'))
@@ -139,7 +139,7 @@ def rust_int(tok):
 # ------------------------------------------------------------------ parser
 class P:
     def __init__(self, toks):
-        self.t = toks; self.i = 0
+        self.t = toks; self.i = 0; self.nostruct = False
 
     def peek(self, k=0):
         return self.t[self.i + k] if self.i + k < len(self.t) else ("eof", "")
@@ -201,13 +201,13 @@ class P:
                 self.eat(">")
             if name == "Option":
                 return ("opt", args[0])
+            if name == "Result" and len(args) == 2:
+                return ("result", args[0], args[1])
             raise Unsupported("type %s<..>" % name)
         if name in INT_TYPES or name == "bool":
             return name
         if name == "RoundingMode":
             return "mode"
-        if name == "Self":
-            raise Unsupported("Self type")
         return ("named", name)
 
     # ---- patterns
@@ -278,7 +278,7 @@ class P:
             return ("ref", self.unary())
         return self.postfix()
 
-    def args(self):
+    def args_(self):
         self.eat("("); a = []
         while not self.at(")"):
             a.append(self.expr())
@@ -313,14 +313,32 @@ class P:
         if k == "str":
             self.eat(); return ("str", v)
         if v == "(" and k == "op":
-            self.eat(); es = []; trailing = False
-            while not self.at(")"):
-                es.append(self.expr()); trailing = False
-                if self.at(","): self.eat(); trailing = True
-            self.eat(")")
-            if len(es) == 1 and not trailing:
-                return ("paren", es[0])
-            return ("tuple", es)
+            save = self.nostruct; self.nostruct = False
+            try:
+                return self.paren_()
+            finally:
+                self.nostruct = save
+        return self.primary2()
+
+    def args(self):
+        save = self.nostruct; self.nostruct = False
+        try:
+            return self.args_()
+        finally:
+            self.nostruct = save
+
+    def paren_(self):
+        self.eat(); es = []; trailing = False
+        while not self.at(")"):
+            es.append(self.expr()); trailing = False
+            if self.at(","): self.eat(); trailing = True
+        self.eat(")")
+        if len(es) == 1 and not trailing:
+            return ("paren", es[0])
+        return ("tuple", es)
+
+    def primary2(self):
+        k, v = self.peek()
         if v == "[" and k == "op":
             self.eat(); es = []
             while not self.at("]"):
@@ -331,6 +349,21 @@ class P:
             return self.if_e()
         if v == "match":
             return self.match_e()
+        if v in ("|", "||") and k == "op":
+            # closure  |a, b| expr
+            params = []
+            if v == "||":
+                self.eat()
+            else:
+                self.eat()
+                while not self.at("|"):
+                    params.append(self.pat())
+                    if self.at(":"):
+                        self.eat(); self.ty()
+                    if self.at(","): self.eat()
+                self.eat("|")
+            body = self.expr()
+            return ("closure", params, body)
         if v == "{" and k == "op":
             return ("block", self.block())
         if v in ("true", "false"):
@@ -348,14 +381,41 @@ class P:
                 start = self.i; self.skip_balanced(o, c)
                 inner = self.t[start + 1:self.i - 1]
                 return ("macro", name, inner)
+            if self.at("{") and path[-1][0].isupper() and not self.nostruct and \
+                    self.peek(1)[0] == "id" and self.peek(2)[1] in (":", ",", "}"):
+                self.eat("{"); fields = []
+                while not self.at("}"):
+                    fn_ = self.eat()[1]
+                    if self.at(":"):
+                        self.eat(); fe = self.expr()
+                    else:
+                        fe = ("path", [fn_])
+                    fields.append((fn_, fe))
+                    if self.at(","): self.eat()
+                self.eat("}")
+                return ("struct", path, fields)
             return ("path", path)
         raise Unsupported("parser: unexpected token %r" % v)
+
+    def cond_expr(self):
+        save = self.nostruct; self.nostruct = True
+        try:
+            return self.expr()
+        finally:
+            self.nostruct = save
 
     def if_e(self):
         self.eat("if")
         if self.at("let"):
-            raise Unsupported("if let")
-        c = self.expr(); th = self.block(); el = None
+            self.eat(); pat = self.pat(); self.eat("="); scr = self.cond_expr()
+            th = self.block(); el = None
+            if self.at("else"):
+                self.eat()
+                el = ([], self.if_e()) if self.at("if") else self.block()
+            if el is None:
+                el = ([], None)
+            return ("match", scr, [(pat, th), (("pwild",), el)])
+        c = self.cond_expr(); th = self.block(); el = None
         if self.at("else"):
             self.eat()
             if self.at("if"):
@@ -365,7 +425,7 @@ class P:
         return ("if", c, th, el)
 
     def match_e(self):
-        self.eat("match"); scr = self.expr(); self.eat("{"); arms = []
+        self.eat("match"); scr = self.cond_expr(); self.eat("{"); arms = []
         while not self.at("}"):
             self.skip_attrs()
             if self.at("|"): self.eat()
@@ -389,6 +449,13 @@ class P:
 
     # ---- statements / blocks:  block = (stmts, tail_expr_or_None)
     def block(self):
+        save = self.nostruct; self.nostruct = False
+        try:
+            return self.block_()
+        finally:
+            self.nostruct = save
+
+    def block_(self):
         self.eat("{"); stmts = []; tail = None
         while not self.at("}"):
             self.skip_attrs()
@@ -414,7 +481,7 @@ class P:
                 if self.at(";"): self.eat()
                 stmts.append(("break",)); continue
             if self.at("while"):
-                self.eat(); c = self.expr(); b = self.block(); stmts.append(("while", c, b)); continue
+                self.eat(); c = self.cond_expr(); b = self.block(); stmts.append(("while", c, b)); continue
             if self.at("for") or self.at("loop") or self.at("unsafe") or self.at("fn") or self.at("use"):
                 raise Unsupported("statement `%s`" % self.peek()[1])
             e = self.expr()
@@ -432,79 +499,246 @@ class P:
         return (stmts, tail)
 
 
-def parse_file(rel):
-    src = strip_comments(open(os.path.join(REPO, rel), encoding="utf-8").read())
-    toks = lex(src)
-    fns, consts = {}, {}
-    p = P(toks); depth = 0
+def parse_fn(p, rel, impl=None, self_ty=None):
+    """p is positioned at `fn`; returns the function record (body None + error when the body is outside the subset)"""
+    p.eat("fn"); name = p.eat()[1]
+    if p.at("<"):
+        raise Unsupported("generic function")
+    p.eat("("); params = []
+    while not p.at(")"):
+        p.skip_attrs()
+        if p.at("&"):
+            # &self / &mut self
+            p.eat()
+            if p.peek()[0] == "life": p.eat()
+            if p.at("mut"): p.eat()
+            if p.at("self"):
+                p.eat(); params.append(("self", ("named", "Self")))
+                if p.at(","): p.eat()
+                continue
+            raise Unsupported("parameter pattern")
+        if p.at("mut"): p.eat()
+        pn = p.eat()[1]
+        if pn == "self" and not p.at(":"):
+            params.append(("self", ("named", "Self")))
+        else:
+            p.eat(":"); pt = p.ty(); params.append((pn, pt))
+        if p.at(","): p.eat()
+    p.eat(")"); ret = "unit"
+    if p.at("->"):
+        p.eat(); ret = p.ty()
+    if p.at("where"):
+        raise Unsupported("where clause")
+    if p.at(";"):
+        p.eat(); return None      # a trait method declaration
+    body_start = p.i
+    key = name if impl is None else "%s::%s" % (impl, name)
+    try:
+        body = p.block()
+        rec = dict(name=key, params=params, ret=ret, body=body, file=rel, impl=impl, self_ty=self_ty)
+    except Unsupported as ex:
+        p.i = body_start; p.skip_balanced("{", "}")
+        rec = dict(name=key, params=params, ret=ret, body=None, file=rel, impl=impl, self_ty=self_ty, error=str(ex))
+    return rec
+
+
+def skip_item(p):
+    while not (p.at("{") or p.at(";")) and p.peek()[0] != "eof":
+        if p.at("(") : p.skip_balanced("(", ")"); continue
+        if p.at("[") : p.skip_balanced("[", "]"); continue
+        p.eat()
+    if p.at("{"):
+        p.skip_balanced("{", "}")
+        if p.at(";"): p.eat()
+    elif p.at(";"):
+        p.eat()
+
+
+def expand_macro(arms, args):
+    """single-arm macro_rules with $name:kind parameters separated by literal tokens"""
+    if len(arms) != 1:
+        raise Unsupported("macro with %d arms" % len(arms))
+    pat, body = arms[0]
+    binds = {}
+    ai = 0; pi = 0
+    while pi < len(pat):
+        if pat[pi][1] == "$" and pi + 3 < len(pat) + 1 and pat[pi + 2][1] == ":":
+            name = pat[pi + 1][1]; pi += 4
+            stop = pat[pi][1] if pi < len(pat) else None
+            d = 0; start = ai
+            while ai < len(args):
+                t = args[ai][1]
+                if d == 0 and stop is not None and t == stop: break
+                if t in ("(", "[", "{", "<"): d += 1
+                if t in (")", "]", "}", ">"): d -= 1
+                ai += 1
+            binds[name] = args[start:ai]
+        else:
+            if ai >= len(args) or args[ai][1] != pat[pi][1]:
+                raise Unsupported("macro arguments do not match its pattern")
+            ai += 1; pi += 1
+    if ai != len(args):
+        raise Unsupported("macro arguments do not match its pattern")
+    out = []
+    bi = 0
+    while bi < len(body):
+        if body[bi][1] == "$" and bi + 1 < len(body) and body[bi + 1][1] in binds:
+            out += binds[body[bi + 1][1]]; bi += 2
+        elif body[bi][1] == "$":
+            raise Unsupported("macro repetition or unknown metavariable")
+        else:
+            out.append(body[bi]); bi += 1
+    return out
+
+
+def parse_tokens(toks, rel, acc):
+    """acc: dict(fns, consts, macros, impl_consts)"""
+    fns, consts, macros = acc["fns"], acc["consts"], acc["macros"]
+    p = P(list(toks) + [("eof", "")])
     pending_attrs = ""
+
+    def add_fn(rec, attrs):
+        if rec is None: return
+        if "cfg" in attrs:
+            rec["body"] = None; rec["error"] = "conditionally compiled item (%s)" % attrs[:60]
+        if rec["name"] in fns:
+            rec["body"] = None; rec["error"] = "function defined more than once (%s)" % rel
+        fns[rec["name"]] = rec
     while p.peek()[0] != "eof":
         k, v = p.peek()
         if k == "op" and v == "#":
-            # remember cfg(test)/verif attributes: skip the following item if test-only
             start = p.i; p.skip_attrs()
             txt = " ".join(t[1] for t in p.t[start:p.i])
-            if "cfg ( test" in txt or "fpdec_verif" in txt or ("cfg ( all" in txt and "test" in txt):
-                # skip the next item wholesale
-                while not (p.at("{") or p.at(";")):
-                    p.eat()
-                if p.at("{"): p.skip_balanced("{", "}")
-                else: p.eat()
-                pending_attrs = ""
+            if "cfg ( test" in txt or "fpdec_verif" in txt or ("cfg ( all" in txt and "test" in txt) \
+                    or re.search(r'cfg \( feature = "(rkyv|serde-as-str|num-traits|packed)"', txt) or "cfg ( doc" in txt:
+                skip_item(p); pending_attrs = ""
             else:
-                pending_attrs = txt
+                pending_attrs = (pending_attrs + " " + txt).strip()
             continue
-        if depth == 0 and k == "id" and v in ("pub", "const", "fn"):
+        attrs, pending_attrs = pending_attrs, ""
+        if k == "id" and v == "macro_rules" and p.at("!", 1):
+            p.eat(); p.eat(); name = p.eat()[1]
+            start = p.i; p.skip_balanced("{", "}")
+            inner = p.t[start + 1:p.i - 1]
+            q = P(list(inner) + [("eof", "")]); arms = []
+            try:
+                while q.peek()[0] != "eof":
+                    o = q.peek()[1]; c = {"(": ")", "[": "]", "{": "}"}[o]
+                    a = q.i; q.skip_balanced(o, c); pat = q.t[a + 1:q.i - 1]
+                    q.eat("=>")
+                    o = q.peek()[1]; c = {"(": ")", "[": "]", "{": "}"}[o]
+                    a = q.i; q.skip_balanced(o, c); body = q.t[a + 1:q.i - 1]
+                    arms.append((pat, body))
+                    if q.at(";"): q.eat()
+                macros[name] = arms
+            except (Unsupported, KeyError):
+                macros[name] = None
+            continue
+        if k == "id" and p.at("!", 1) and p.peek(2)[1] in ("(", "[", "{"):
+            name = v; p.eat(); p.eat()
+            o = p.peek()[1]; c = {"(": ")", "[": "]", "{": "}"}[o]
+            a = p.i; p.skip_balanced(o, c); args = p.t[a + 1:p.i - 1]
+            if p.at(";"): p.eat()
+            if "cfg" in attrs or macros.get(name) is None:
+                continue
+            try:
+                before = set(fns)
+                parse_tokens(expand_macro(macros[name], args), rel, acc)
+                for k_ in set(fns) - before:
+                    fns[k_]["macro"] = name
+            except Unsupported as ex:
+                acc.setdefault("macro_errors", {})[name] = str(ex)
+            continue
+        if k == "id" and v == "impl":
+            p.eat(); hdr = []
+            while not p.at("{") and p.peek()[0] != "eof":
+                hdr.append(p.eat()[1])
+            h = " ".join(hdr)
+            m = re.match(r"^(?:(\w+)(?: < (?:Self|Decimal) >)? for )?(Decimal|i128)$", h)
+            if not m or "cfg" in attrs:
+                p.skip_balanced("{", "}"); continue
+            impl = m.group(1) or m.group(2); self_ty = "dec" if m.group(2) == "Decimal" else m.group(2)
+            p.eat("{")
+            inner_attrs = ""
+            assoc = {}
+            blk = acc.setdefault("impl_blocks", {}).setdefault(rel, {}).setdefault(impl, dict(fns=[], consts=0))
+            while not p.at("}"):
+                if p.at("#"):
+                    a = p.i; p.skip_attrs(); inner_attrs += " ".join(t[1] for t in p.t[a:p.i]); continue
+                ia, inner_attrs = inner_attrs, ""
+                if p.at("type"):
+                    save = p.i
+                    try:
+                        p.eat(); an = p.eat()[1]; p.eat("="); at_ = p.ty(); p.eat(";")
+                        assoc[an] = at_
+                    except Unsupported:
+                        p.i = save; skip_item(p)
+                    continue
+                if p.at("pub"):
+                    p.eat()
+                    if p.at("("): p.skip_balanced("(", ")")
+                while p.at("const") and p.at("fn", 1) or p.at("unsafe") or p.at("default"):
+                    p.eat()
+                if p.at("const"):
+                    p.eat(); cname = p.eat()[1]; p.eat(":"); t = p.ty(); p.eat("=")
+                    save = p.i
+                    try:
+                        e = p.expr(); p.eat(";")
+                        acc["impl_consts"]["%s::%s" % (m.group(2), cname)] = (t, e)
+                    except Unsupported:
+                        p.i = save; skip_item(p)
+                    blk["consts"] += 1
+                    continue
+                if p.at("fn"):
+                    save = p.i
+                    try:
+                        rec_ = parse_fn(p, rel, impl, self_ty)
+                        if rec_ is not None:
+                            rec_["assoc"] = assoc; blk["fns"].append(rec_["name"])
+                        add_fn(rec_, ia + attrs if "cfg" in ia else ia)
+                    except Unsupported as ex:
+                        p.i = save; p.eat("fn"); nm = p.eat()[1]
+                        skip_item(p)
+                        fns["%s::%s" % (impl, nm)] = dict(name="%s::%s" % (impl, nm), params=[], ret="unit", body=None,
+                                                           file=rel, impl=impl, self_ty=self_ty, error=str(ex))
+                        blk["fns"].append("%s::%s" % (impl, nm))
+                    continue
+                skip_item(p)
+            p.eat("}")
+            continue
+        if k == "id" and v in ("pub", "const", "fn"):
             save = p.i
             try:
                 if p.at("pub"):
                     p.eat()
                     if p.at("("): p.skip_balanced("(", ")")
-                isconst = False
                 if p.at("const") and p.at("fn", 1):
                     p.eat()
                 if p.at("const"):
                     p.eat(); name = p.eat()[1]; p.eat(":"); t = p.ty(); p.eat("="); e = p.expr(); p.eat(";")
                     consts[name] = (t, e); continue
                 if p.at("fn"):
-                    p.eat(); name = p.eat()[1]
-                    if p.at("<"):
-                        raise Unsupported("generic function")
-                    p.eat("("); params = []
-                    while not p.at(")"):
-                        mut = False
-                        if p.at("mut"): p.eat(); mut = True
-                        pn = p.eat()[1]; p.eat(":"); pt = p.ty(); params.append((pn, pt))
-                        if p.at(","): p.eat()
-                    p.eat(")"); ret = "unit"
-                    if p.at("->"):
-                        p.eat(); ret = p.ty()
-                    if p.at("where"):
-                        raise Unsupported("where clause")
-                    body_start = p.i
-                    attrs, pending_attrs = pending_attrs, ""
-                    try:
-                        body = p.block()
-                        rec = dict(name=name, params=params, ret=ret, body=body, file=rel)
-                    except Unsupported as ex:
-                        p.i = body_start; p.skip_balanced("{", "}")
-                        rec = dict(name=name, params=params, ret=ret, body=None, file=rel, error=str(ex))
-                    if "cfg" in attrs:
-                        rec["body"] = None; rec["error"] = "conditionally compiled item (%s)" % attrs[:60]
-                    if name in fns:
-                        rec["body"] = None; rec["error"] = "function defined more than once in %s" % rel
-                    fns[name] = rec
+                    add_fn(parse_fn(p, rel), attrs)
                     continue
             except Unsupported:
-                p.i = save
+                pass
             p.i = save
-        # generic skipping
+            skip_item(p)
+            continue
+        if k == "id" and v in ("mod", "trait", "struct", "enum", "use", "type", "static", "extern", "union"):
+            skip_item(p); continue
         if k == "op" and v == "{":
-            p.skip_balanced("{", "}"); pending_attrs = ""; continue
-        if not (k == "id" and v in ("pub", "const", "unsafe", "extern", "crate")) and not (k == "op" and v in ("(", ")")):
-            pending_attrs = ""
+            p.skip_balanced("{", "}"); continue
         p.eat()
-    return fns, consts
+
+
+def parse_file(rel, acc=None):
+    src = strip_comments(open(os.path.join(REPO, rel), encoding="utf-8").read())
+    own = acc is None
+    if own:
+        acc = dict(fns={}, consts={}, macros={}, impl_consts={})
+    parse_tokens(lex(src), rel, acc)
+    return (acc["fns"], acc["consts"]) if own else acc
 
 
 # ------------------------------------------------------------------ translation
@@ -548,10 +782,41 @@ def coq_ty(t):
     if t == "bool": return "bool"
     if t == "unit": return "unit"
     if t == "mode": return "mode"
+    if t == "dec": return "dec"
+    if t == "ordering": return "comparison"
+    if t == "derr": return "derr"
+    if t[0] == "named" and t[1] == "DecimalError": return "derr"
+    if t[0] == "result": return "(%s + %s)" % (coq_ty(t[1]), coq_ty(t[2]))
+    if t[0] == "ref": return coq_ty(t[1])
     if t[0] == "opt": return "option (%s)" % coq_ty(t[1])
     if t[0] == "tup": return "(" + " * ".join(coq_ty(x) for x in t[1]) + ")"
     if t[0] == "mutref": return coq_ty(t[1])
     raise Unsupported("type %r" % (t,))
+
+
+def norm_ty(t, self_ty, assoc=None):
+    """Decimal / Self / Self::Output -> 'dec' (or the impl's integer type); references are transparent"""
+    if isinstance(t, tuple):
+        if t[0] == "named":
+            if t[1] == "Decimal": return "dec"
+            if t[1] == "Output" and assoc and "Output" in assoc:
+                return norm_ty(assoc["Output"], self_ty)
+            if t[1] in ("Self", "Output"):
+                if self_ty is None: raise Unsupported("Self outside an impl")
+                return self_ty
+            if t[1] == "Ordering": return "ordering"
+            if t[1] == "DecimalError": return "derr"
+            return t
+        if t[0] == "ref": return norm_ty(t[1], self_ty, assoc)
+        if t[0] == "mutref": return ("mutref", norm_ty(t[1], self_ty, assoc))
+        if t[0] == "opt": return ("opt", norm_ty(t[1], self_ty, assoc))
+        if t[0] == "tup": return ("tup", tuple(norm_ty(x, self_ty, assoc) for x in t[1]))
+        if t[0] == "result": return ("result", norm_ty(t[1], self_ty, assoc), norm_ty(t[2], self_ty, assoc))
+    return t
+
+
+def coq_name(key):
+    return "g_" + key.replace("::", "_")
 
 
 def unify(a, b):
@@ -567,6 +832,8 @@ def unify(a, b):
     if isinstance(a, tuple) and isinstance(b, tuple) and a[0] == b[0]:
         if a[0] == "opt":
             return ("opt", unify(a[1], b[1]))
+        if a[0] == "result":
+            return ("result", unify(a[1], b[1]), unify(a[2], b[2]))
         if a[0] == "tup" and len(a[1]) == len(b[1]):
             return ("tup", tuple(unify(x, y) for x, y in zip(a[1], b[1])))
     raise Unsupported("type mismatch %r / %r" % (a, b))
@@ -612,8 +879,12 @@ class Fn:
     def __init__(self, f, sigs, file_consts, uses_dflt):
         self.f = f; self.sigs = sigs; self.fc = file_consts; self.uses_dflt = uses_dflt
         self.tmp = 0; self.loops = []; self.lconsts = {}
+        self.self_ty = f.get("self_ty")
+        self.assoc = f.get("assoc") or {}
+        f = dict(f); f["params"] = [(n, norm_ty(t, self.self_ty, self.assoc)) for n, t in f["params"]]; self.f = f
         self.mutrefs = [n for n, t in f["params"] if isinstance(t, tuple) and t[0] == "mutref"]
-        self.ret = f["ret"]
+        self.ret = norm_ty(f["ret"], self.self_ty, self.assoc)
+        self.impl_consts = {}
         self.needs_dflt = False
 
     def fresh(self, base="tmp"):
@@ -676,7 +947,41 @@ class Fn:
                 return [], "(%s %s)" % ("tmax" if p[1] == "MAX" else "tmin", COQ_ITY[p[0]]), p[0]
             if len(p) == 2 and p[0] == "RoundingMode" and p[1] in MODES:
                 return [], MODES[p[1]], "mode"
+            if len(p) == 2 and p[0] == "Ordering" and p[1] in ("Less", "Equal", "Greater"):
+                return [], {"Less": "Lt", "Equal": "Eq", "Greater": "Gt"}[p[1]], "ordering"
+            if len(p) == 2 and p[0] == "DecimalError":
+                return [], "E_" + p[1], "derr"
+            if len(p) == 2 and p[0] in ("Self", "Decimal") and self.self_ty in ("dec", None) and "Decimal::" + p[1] in self.impl_consts:
+                t, ce = self.impl_consts["Decimal::" + p[1]]
+                save = self.self_ty; self.self_ty = "dec"
+                try:
+                    pre, a, ty = self.e(ce, {}, "dec")
+                finally:
+                    self.self_ty = save
+                if pre: raise Unsupported("effectful associated constant")
+                return [], a, "dec"
             raise Unsupported("path %s" % "::".join(p))
+        if k == "struct":
+            if norm_ty(("named", x[1][-1]), self.self_ty, self.assoc) != "dec":
+                raise Unsupported("struct literal %s" % "::".join(x[1]))
+            fl = dict(x[2])
+            if set(fl) != {"coeff", "n_frac_digits"}:
+                raise Unsupported("fields of a Decimal literal")
+            p1, c, _ = self.e(fl["coeff"], env, "i128")
+            p2, n, _ = self.e(fl["n_frac_digits"], env, "u8")
+            # Rust evaluates the field initialisers in the order written
+            order = [f_ for f_, _ in x[2]]
+            pre = p1 + p2 if order[0] == "coeff" else p2 + p1
+            if order[0] != "coeff" and p1 and p2:
+                raise Unsupported("effectful Decimal literal fields out of order")
+            return pre, "(mkdec %s %s)" % (atom(c), atom(n)), "dec"
+        if k == "fieldn":
+            pre, a, t = self.e(x[1], env, None)
+            if resolve(t) == "dec" and x[2] == "coeff":
+                return pre, "(coeff %s)" % atom(a), "i128"
+            if resolve(t) == "dec" and x[2] == "n_frac_digits":
+                return pre, "(nfd %s)" % atom(a), "u8"
+            raise Unsupported("field %s" % x[2])
         if k == "deref":
             return self.e(x[1], env, want)
         if k == "mutref" or k == "ref":
@@ -824,14 +1129,32 @@ class Fn:
             w = want[1] if isinstance(want, tuple) and want[0] == "opt" else None
             pre, a, t = self.e(x[2][0], env, w)
             return pre, "(Some %s)" % atom(a), ("opt", t)
+        if p in (["Ok"], ["Err"]) and len(x[2]) == 1:
+            w = resolve(want) if want is not None else None
+            wt = (w[1] if p == ["Ok"] else w[2]) if isinstance(w, tuple) and w[0] == "result" else None
+            pre, a, t = self.e(x[2][0], env, wt)
+            if p == ["Ok"]:
+                return pre, "(inl %s)" % atom(a), ("result", t, w[2] if isinstance(w, tuple) and w[0] == "result" else TVar())
+            return pre, "(inr %s)" % atom(a), ("result", w[1] if isinstance(w, tuple) and w[0] == "result" else TVar(), t)
         if p == ["RoundingMode", "default"] and not x[2]:
             self.needs_dflt = True
             return [], "dflt", "mode"
         name = p[-1]
-        if len(p) > 1 and p[0] not in ("crate", "super", "self"):
+        if len(p) == 2 and p[0] in INT_TYPES and x[2]:
+            # i128::checked_add(a, b)  ==  a.checked_add(b)
+            return self.mcall(("mcall", x[2][0], p[1], x[2][1:]), env, want)
+        if len(p) == 2 and "::".join(p) in self.sigs:
+            name = "::".join(p)
+        elif len(p) == 2 and p[0] == "Self" and self.f.get("impl") and "%s::%s" % (self.f["impl"], p[1]) in self.sigs:
+            name = "%s::%s" % (self.f["impl"], p[1])
+        elif len(p) > 1 and p[0] not in ("crate", "super", "self"):
             raise Unsupported("call of %s" % "::".join(p))
         if name not in self.sigs:
             raise Unsupported("call of untranslated function %s" % name)
+        return self.call_sig(name, x[2], env)
+
+    def call_sig(self, name, actuals, env):
+        x = (None, None, actuals)
         sig = self.sigs[name]
         if len(sig["params"]) != len(x[2]):
             raise Unsupported("arity of %s" % name)
@@ -847,7 +1170,7 @@ class Fn:
                 unify(ty, pt)
                 pre += pp; args.append(atom(t))
         r = self.fresh()
-        head = "g_%s pf" % name + (" dflt" if name in self.uses_dflt else "")
+        head = "%s pf" % coq_name(name) + (" dflt" if name in self.uses_dflt else "")
         if name in self.uses_dflt:
             self.needs_dflt = True
         callc = "%s %s" % (head, " ".join(args)) if args else head
@@ -858,16 +1181,32 @@ class Fn:
 
     def mcall(self, x, env, want):
         recv, m, args = x[1], x[2], x[3]
+        pl, l, tl = self.e(recv, env, None)
+        tlr = resolve(tl)
+        # a method of an impl block that was translated
+        cands = [k_ for k_, sg in self.sigs.items() if "::" in k_ and k_.split("::")[1] == m and sg.get("self_ty") == tlr
+                 and sg["params"] and sg["params"][0][0] == "self"]
+        if tlr == "dec" or (cands and m in ("divmod", "div_floor", "div_ceil")):
+            if len(cands) != 1:
+                raise Unsupported("method %s on %s (%d candidates)" % (m, tlr, len(cands)))
+            return self.call_sig(cands[0], [recv] + list(args), env)
         if m in ("checked_add", "checked_sub", "checked_mul", "wrapping_add", "wrapping_sub", "wrapping_mul"):
-            pl, l, tl = self.e(recv, env, None)
             pr, r, tr = self.e(args[0], env, tl)
             t = unify(tl, tr)
             o = {"add": "+", "sub": "-", "mul": "*"}[m.split("_")[1]]
             if m.startswith("checked"):
                 return pl + pr, "(checked %s (%s %s %s))" % (tyname(t), atom(l), o, atom(r)), ("opt", t)
             return pl + pr, "(wrap %s (%s %s %s))" % (tyname(t), atom(l), o, atom(r)), t
-        pl, l, tl = self.e(recv, env, None)
-        tlr = resolve(tl)
+        if m == "signum" and not args:
+            return pl, "(Z.sgn %s)" % atom(l), tl
+        if m == "map" and len(args) == 1 and isinstance(tlr, tuple) and tlr[0] == "opt" and args[0][0] == "closure":
+            cl = args[0]
+            if len(cl[1]) != 1: raise Unsupported("closure arity")
+            env2 = dict(env)
+            cp = self.pattern(cl[1][0], tlr[1], env2)
+            pb, b, tb = self.e(cl[2], env2, None)
+            if pb: raise Unsupported("effectful closure")
+            return pl, "(option_map (fun %s => %s) %s)" % (cp if not cp.startswith("(") else "'" + cp, b, atom(l)), ("opt", tb)
         if m == "unsigned_abs" and not args:
             u = {"i8": "u8", "i16": "u16", "i32": "u32", "i64": "u64", "i128": "u128", "isize": "usize"}.get(tlr)
             if not u: raise Unsupported("unsigned_abs on %r" % (tlr,))
@@ -882,6 +1221,13 @@ class Fn:
         if m == "abs" and not args:
             r = self.fresh()
             return pl + [("bind", r, "ck_abs pf %s %s" % (tyname(tl), atom(l)))], r, tl
+        if m == "partial_cmp" and len(args) == 1 and is_int(tl):
+            pr, r, tr = self.e(args[0], env, tl)
+            unify(tl, tr)
+            return pl + pr, "(Some (Z.compare %s %s))" % (atom(l), atom(r)), ("opt", "ordering")
+        if m == "unwrap" and not args and isinstance(tlr, tuple) and tlr[0] == "opt":
+            r = self.fresh()
+            return pl + [("bind", r, "match %s with Some x_ => Val x_ | None => Panic end" % atom(l))], r, tlr[1]
         if m == "cmp" and len(args) == 1:
             pr, r, tr = self.e(args[0], env, tl)
             unify(tl, tr)
@@ -938,6 +1284,8 @@ class Fn:
         return code, holder.get("t"), pure
 
     def match_expr(self, x, env, want):
+        if self.is_int_match(x):
+            return self.if_expr(self.int_match_to_if(x), env, want)
         ps, s, ts = self.e(x[1], env, None)
         arms = []
         allpure = True; rt = want
@@ -977,6 +1325,9 @@ class Fn:
         if k == "pctor":
             path, subs = pat[1], pat[2]
             if path == ["None"]: return "None"
+            if path in (["Ok"], ["Err"]):
+                if not (isinstance(ty, tuple) and ty[0] == "result"): raise Unsupported("Ok/Err pattern on a non-Result")
+                return "%s %s" % ("inl" if path == ["Ok"] else "inr", self.pattern(subs[0], ty[1] if path == ["Ok"] else ty[2], env))
             if path == ["Some"]:
                 inner = ty[1] if isinstance(ty, tuple) and ty[0] == "opt" else TVar()
                 return "Some %s" % self.pattern(subs[0], inner, env)
@@ -1006,8 +1357,12 @@ class Fn:
             self.lconsts[name] = s[2]; self._lcv = dict(self.lconst_vals(), **{name: val})
             code, pure = rest(env)
             return "let %s := %s in\n%s" % (self.v(name), num(val), code), pure
+        if kind == "let" and s[3][0] in ("if", "match") and contains_jump(("", s[3])):
+            # let p = match .. { A => e1, B => e2? };  ~>  match .. { A => { let p = e1; rest }, B => { let p = e2?; rest } }
+            return self.stmts([("expr", push_let(s[3], s[1], s[2]))] + list(ss[i + 1:]), 0, env, k)
         if kind == "let":
             pat, ty, ex = s[1], s[2], s[3]
+            if ty is not None: ty = norm_ty(ty, self.self_ty, self.assoc)
             pre, a, t = self.e(ex, env, ty)
             if ty is not None:
                 t = unify(t, ty) if resolve(t) is not None else ty
@@ -1043,11 +1398,17 @@ class Fn:
             code, pure = rest(env)
             return self.wrap(pre, code), pure and not pre
         if kind == "return":
+            if getattr(self, "loop_ctx", None):
+                # early return from inside a loop: the loop yields  inr <function result>
+                if self.mutrefs or s[1] is None: raise Unsupported("return inside a loop of a function with &mut parameters")
+                pre, a, t = self.e(s[1], env, self.ret)
+                unify(t, self.ret)
+                return self.wrap(pre, "Val (inr %s)" % atom(a)), False
             return self.k_return(s[1], env), False
         if kind == "break":
             if not getattr(self, "loop_ctx", None):
                 raise Unsupported("break outside a loop")
-            return "Val %s" % tuple_of([self.v(z) for z in self.loop_ctx[-1]["mv"]]), False
+            return self.loop_exit(), False
         if kind == "while":
             return self.while_stmt(s, env, rest)
         raise Unsupported("statement %s" % kind)
@@ -1137,14 +1498,43 @@ class Fn:
                 raise Unsupported("tail expression in a statement block")
         return self.stmts(ss, 0, dict(env), k)
 
+    def int_match_to_if(self, ex):
+        """match n { 0 => a, 1 => b, m => c }  on an integer  ~>  if n == 0 {a} else if n == 1 {b} else { let m = n; c }"""
+        scr, arms = ex[1], ex[2]
+        def build(i):
+            pat, body = arms[i]
+            if pat[0] == "plit":
+                if i + 1 >= len(arms): raise Unsupported("non-exhaustive integer match")
+                nxt = build(i + 1)
+                return ("if", ("bin", "==", scr, ("lit", pat[1], None)), body, nxt if nxt[0] == "blk" else ([], nxt))
+            if pat[0] in ("pvar", "pwild"):
+                stmts, tail = body
+                pre = [("let", pat, None, scr)] if pat[0] == "pvar" else []
+                return ("blk", (pre + list(stmts), tail))
+            raise Unsupported("pattern in an integer match")
+        r = build(0)
+        if r[0] == "blk": return ("block", r[1])
+        def fix(e):
+            # unwrap ("blk", b) markers in else positions
+            if e[0] == "if":
+                el = e[3]
+                if isinstance(el, tuple) and len(el) == 2 and el[0] == "blk": el = el[1]
+                elif isinstance(el, tuple) and el[0] == [] and el[1] is not None and el[1][0] == "if": el = ([], fix(el[1]))
+                return ("if", e[1], e[2], el)
+            return e
+        return fix(r)
+
+    def is_int_match(self, ex):
+        return any(p_[0] == "plit" for p_, _ in ex[2])
+
     def match_stmt(self, ex, env, rest):
+        if self.is_int_match(ex):
+            return self.if_stmt(self.int_match_to_if(ex), env, rest, None)
         ps, s, ts = self.e(ex[1], env, None)
         arms = []
         for pat, body in ex[2]:
             env2 = dict(env)
             cp = self.pattern(pat, ts, env2)
-            if any(z in env for z in assigned(body)) and not contains_jump(body):
-                raise Unsupported("match arm assigning outer variables")
             blk = body
             if blk[1] is not None and blk[1][0] not in ("if", "match"):
                 raise Unsupported("match statement arm with a value")
@@ -1152,21 +1542,28 @@ class Fn:
             arms.append("| %s =>\n%s" % (cp, code))
         return self.wrap(ps, "match %s with\n%s\nend" % (s, "\n".join(arms))), False
 
+    def loop_exit(self):
+        c = self.loop_ctx[-1]
+        tup = tuple_of([self.v(z) for z in c["mv"]])
+        return "Val (inl %s)" % tup if c["ret"] else "Val %s" % tup
+
     def while_stmt(self, s, env, rest):
         cnd, body = s[1], s[2]
-        if contains_return(body):
-            raise Unsupported("return inside a loop")
+        has_ret = contains_return(body)
+        if has_ret and getattr(self, "loop_ctx", None):
+            raise Unsupported("return inside nested loops")
         mv = [z for z in dict.fromkeys(assigned(body)) if z in env]
         fv = [z for z in dict.fromkeys(free_vars(cnd) + free_vars_block(body)) if z in env]
         fv = mv + [z for z in fv if z not in mv]
-        lname = "g_%s_loop%d" % (self.f["name"], len(self.loops) + 1)
+        lname = "%s_loop%d" % (coq_name(self.f["name"]), len(self.loops) + 1)
         if not hasattr(self, "loop_ctx"): self.loop_ctx = []
-        self.loop_ctx.append(dict(mv=mv))
+        self.loop_ctx.append(dict(mv=mv, ret=has_ret))
         lenv = {z: env[z] for z in env}
         pc, c, _ = self.e(cnd, lenv, "bool")
         tup = tuple_of([self.v(z) for z in mv])
         reccall = "%s fuel' pf %s" % (lname, " ".join(self.v(z) for z in fv))
         bcode, _ = self.block_stmts(body, lenv, lambda e2: (reccall, False))
+        exit_code = self.loop_exit()
         self.loop_ctx.pop()
         used = set(free_vars(cnd) + free_vars_block(body))
         lets = []
@@ -1177,12 +1574,18 @@ class Fn:
                 lets.append(("let", self.v(n), num(self.lconst_vals()[n])))
         loop = ("Fixpoint %s (fuel : nat) (pf : profile) (%s : Z) {struct fuel} : res %s :=\n"
                 "match fuel with\n| O => Fuel\n| S fuel' =>\n%s\nend.\n") % (
-            lname, " ".join(self.v(z) for z in fv), "(" + " * ".join("Z" for _ in mv) + ")" if len(mv) > 1 else "Z",
-            self.wrap(lets + pc, "if %s then\n%s\nelse Val %s" % (c, bcode, tup)))
+            lname, " ".join(self.v(z) for z in fv),
+            (("(" + " * ".join("Z" for _ in mv) + ")" if len(mv) > 1 else "Z") if not has_ret else
+             "((%s) + %s)" % (" * ".join("Z" for _ in mv), coq_ty(self.ret))),
+            self.wrap(lets + pc, "if %s then\n%s\nelse %s" % (c, bcode, exit_code)))
         self.loops.append(loop)
         code, pure = rest(env)
         pat = tup if len(mv) == 1 else "'" + tup
-        call = "%s LOOP_FUEL pf %s" % (lname, " ".join(self.v(z) for z in fv))
+        call = "%s %s pf %s" % (lname, getattr(self, "fuel_name", "LOOP_FUEL"), " ".join(self.v(z) for z in fv))
+        if has_ret:
+            r = self.fresh()
+            return self.wrap([("bind", r, call)], "match %s with\n| inl %s =>\n%s\n| inr %s_ => Val %s_\nend" % (
+                r, tup if len(mv) == 1 else tup, code, r, r)), False
         return self.wrap([("bind", pat, call)], code), False
 
     # ---------- whole function
@@ -1193,7 +1596,10 @@ class Fn:
             env[n] = t[1] if isinstance(t, tuple) and t[0] == "mutref" else t
         stmts, tail = f["body"]
         ss = list(stmts)
-        if tail is not None and tail[0] in ("if", "match") and (contains_jump(("", tail)) or is_stmt_like(tail)):
+        if tail is not None and tail[0] in ("if", "match") and resolve(self.ret) != "unit":
+            # an if/match in tail position: every branch's value is the function's result
+            ss.append(("expr", returnify(tail))); tail = None
+        elif tail is not None and tail[0] in ("if", "match") and (contains_jump(("", tail)) or is_stmt_like(tail)):
             ss.append(("expr", tail)); tail = None
 
         def endk(env2):
@@ -1210,8 +1616,8 @@ class Fn:
             rcoq = "(" + " * ".join(rts) + ")"
         else:
             rcoq = coq_ty(rt)
-        head = "Definition g_%s (pf : profile)%s %s : res %s :=\n" % (
-            f["name"], " (dflt : mode)" if self.needs_dflt else "", params, atom(rcoq))
+        head = "Definition %s (pf : profile)%s %s : res %s :=\n" % (
+            coq_name(f["name"]), " (dflt : mode)" if self.needs_dflt else "", params, atom(rcoq))
         text = "".join(self.loops) + head + body + ".\n"
 
         def sub(m):
@@ -1322,6 +1728,58 @@ def contains_return(blk):
     return bool(found)
 
 
+def push_let(e, pat, ty):
+    """move `let pat = <if/match>` into the branches"""
+    def blk(b):
+        if b is None:
+            raise Unsupported("let from an if without else")
+        stmts, tail = b
+        if tail is None:
+            if stmts and stmts[-1][0] in ("return", "break"):
+                return b
+            if stmts and stmts[-1][0] == "expr" and stmts[-1][1][0] == "macro" and stmts[-1][1][1] in ("panic", "unreachable"):
+                return b
+            raise Unsupported("branch without a value")
+        if tail[0] in ("if", "match"):
+            return (list(stmts) + [("expr", push_let(tail, pat, ty))], None)
+        if tail[0] == "macro" and tail[1] in ("panic", "unreachable"):
+            return (list(stmts) + [("expr", tail)], None)
+        return (list(stmts) + [("let", pat, ty, tail)], None)
+    if e[0] == "if":
+        el = e[3]
+        if el is not None and el[0] == [] and el[1] is not None and el[1][0] == "if":
+            el = ([("expr", push_let(el[1], pat, ty))], None)
+        else:
+            el = blk(el)
+        return ("if", e[1], blk(e[2]), el)
+    return ("match", e[1], [(p_, blk(b)) for p_, b in e[2]])
+
+
+def returnify(e):
+    """an if / match in tail position of a function: make every branch end in `return value`"""
+    def blk(b):
+        if b is None:
+            return None
+        stmts, tail = b
+        if tail is None:
+            return b
+        if tail[0] in ("if", "match"):
+            return (list(stmts) + [("expr", returnify(tail))], None)
+        if tail[0] == "macro" and tail[1] in ("panic", "unreachable"):
+            return (list(stmts) + [("expr", tail)], None)
+        return (list(stmts) + [("return", tail)], None)
+    if e[0] == "if":
+        el = e[3]
+        if el is not None and el[0] == [] and el[1] is not None and el[1][0] == "if":
+            el = ([("expr", returnify(el[1]))], None)
+        else:
+            el = blk(el)
+        return ("if", e[1], blk(e[2]), el)
+    if e[0] == "match":
+        return ("match", e[1], [(p_, blk(b)) for p_, b in e[2]])
+    return e
+
+
 def is_stmt_like(e):
     """an if/match in tail position whose branches have no value (all end in statements)"""
     if e[0] == "if":
@@ -1374,7 +1832,7 @@ def calls_in(f):
     return out
 
 
-def validate(out, status):
+def validate(out, status, deps=()):
     """type-check the generated file with coqc; a definition that does not type-check is dropped (with everything
     that refers to it) and reported as failed, so that one untranslatable function cannot take the others with it"""
     import subprocess, tempfile, shutil
@@ -1387,7 +1845,10 @@ def validate(out, status):
             text = "\n".join(out) + "\n"
             f = os.path.join(tmp, "GenCoreTry.v")
             open(f, "w").write(text)
-            r = subprocess.run(["coqc", "-q", "-Q", os.path.join(coq, "model"), "FP", "-Q", tmp, "Try", f],
+            extra = []
+            for d_ in deps:
+                extra += ["-Q", d_, "FP"]
+            r = subprocess.run(["coqc", "-q", "-Q", os.path.join(coq, "model"), "FP"] + extra + ["-Q", tmp, "Try", f],
                                stdout=subprocess.PIPE, stderr=subprocess.STDOUT, universal_newlines=True, timeout=300)
             if r.returncode == 0:
                 return text
@@ -1406,7 +1867,8 @@ def validate(out, status):
             if hit is None or not out[hit].lstrip().startswith(("Definition g_", "Fixpoint g_")):
                 status["failed"]["GenCore.v"] = "coqc: " + r.stdout[-300:]
                 return text
-            name = re.search(r"Definition g_(\w+)", out[hit]).group(1)
+            cname = re.search(r"Definition g_(\w+)", out[hit]).group(1)
+            name = next((t_ for t_ in status["translated"] if coq_name(t_) == "g_" + cname), cname)
             msg = " ".join(r.stdout.split())[-200:]
             status["failed"][name] = "translation does not type-check: " + msg
             if name in status["translated"]: status["translated"].remove(name)
@@ -1416,54 +1878,104 @@ def validate(out, status):
         shutil.rmtree(tmp, ignore_errors=True)
 
 
-def main():
+DEC_TARGETS = [
+    ("src/lib.rs", ["normalize", "Decimal::coefficient", "Decimal::n_frac_digits", "Decimal::new_raw", "Decimal::magnitude"]),
+    ("src/binops/cmp.rs", ["Decimal::eq_zero", "Decimal::eq_one", "Decimal::is_negative", "Decimal::is_positive",
+                           "PartialEq::eq", "PartialOrd::partial_cmp", "Ord::cmp"]),
+    ("src/binops/mul_rounded.rs", ["checked_mul_rounded", "MulRounded::mul_rounded"]),
+    ("src/binops/mul.rs", ["Mul::mul"]),
+    ("src/binops/checked_mul.rs", ["CheckedMul::checked_mul"]),
+    ("src/binops/div_rounded.rs", ["checked_div_rounded", "DivRounded::div_rounded"]),
+    ("src/binops/div.rs", ["Div::div"]),
+    ("src/binops/checked_div.rs", ["CheckedDiv::checked_div"]),
+    ("src/round.rs", ["Round::round", "Round::checked_round"]),
+    ("src/unops.rs", ["DivModInt::divmod", "DivModInt::div_floor", "DivModInt::div_ceil", "Neg::neg", "Decimal::abs",
+                      "Decimal::floor", "Decimal::ceil", "Decimal::trunc", "Decimal::fract"]),
+    ("src/binops/rem.rs", ["rem", "Rem::rem"]),
+    ("src/binops/checked_rem.rs", ["CheckedRem::checked_rem"]),
+    ("src/binops/add_sub.rs", ["coeff_or_panic", "Add::add", "Sub::sub"]),
+    ("src/binops/checked_add_sub.rs", ["CheckedAdd::checked_add", "CheckedSub::checked_sub"]),
+]
+FUELS = {"normalize": 256, "rem": 256}
+PRIM_METHODS = {"cmp", "partial_cmp", "eq", "ne", "lt", "le", "gt", "ge", "abs", "neg", "checked_add", "checked_sub",
+                "checked_mul", "checked_div", "checked_rem", "wrapping_add", "wrapping_sub", "wrapping_mul", "unsigned_abs",
+                "signum", "map", "unwrap", "unwrap_or", "unwrap_or_else", "is_negative", "is_positive", "hash", "default"}
+OUT_DEC = os.path.join(HERE, "..", "coq", "gen", "GenDec.v")
+
+
+def generate(targets, file_consts, out_path, header, unit, base=None):
+    """translate one unit; base = (fns, sigs, uses, fconsts) of the unit it builds on"""
     status = {"translated": [], "failed": {}, "missing": []}
+    acc = dict(fns={}, consts={}, macros={}, impl_consts={})
     fns, consts = {}, {}
-    for rel, names in TARGETS:
+    for rel, names in targets:
         try:
-            fs, cs = parse_file(rel)
+            parse_file(rel, acc)
         except (Unsupported, OSError) as ex:
             for n in names: status["failed"][n] = "file %s: %s" % (rel, ex)
-            continue
+    for rel, names in targets:
         for n in names:
-            if n in fs: fns[n] = fs[n]
-            else: status["missing"].append(n)
-        for crel, cn in FILE_CONSTS:
-            if crel == rel and cn in cs: consts[cn] = cs[cn]
-    # helper functions of the same files that the targets call are translated as well
-    allfns = {}
-    for rel, names in TARGETS:
-        try:
-            fs, _ = parse_file(rel)
-        except (Unsupported, OSError):
-            continue
-        for n, f in fs.items():
-            allfns.setdefault(n, f)
+            if n in acc["fns"] and acc["fns"][n]["file"] == rel: fns[n] = acc["fns"][n]
+            elif n not in status["failed"]: status["missing"].append(n)
+        for crel, cn in file_consts:
+            if crel == rel and cn in acc["consts"]: consts[cn] = acc["consts"][cn]
+    if acc.get("macro_errors"):
+        status["macro_errors"] = acc["macro_errors"]
+    base_fns = base[0] if base else {}
+
+    def resolve_call(c, caller):
+        """key of the function a call path refers to, among the parsed functions"""
+        if c in acc["fns"] or c in base_fns: return c
+        last = c.split("::")[-1]
+        if "::" not in c or c.split("::")[0] in ("crate", "super", "self"):
+            return last if (last in acc["fns"] or last in base_fns) else None
+        if c.startswith("Self::") and caller.get("impl"):
+            k = "%s::%s" % (caller["impl"], last)
+            return k if k in acc["fns"] else None
+        return None
+
+    def method_calls(f):
+        out = set()
+
+        def g(n):
+            if n[0] == "mcall": out.add(n[2])
+        if f["body"] is not None: walk_block(f["body"], g)
+        return out
+
+    def callees(f):
+        out = set()
+        for c in calls_in(f):
+            k = resolve_call(c, f)
+            if k: out.add(k)
+        for m in method_calls(f):
+            if m in PRIM_METHODS: continue
+            ks = [k for k in acc["fns"] if "::" in k and k.split("::")[1] == m]
+            if len(ks) == 1: out.add(ks[0])
+            elif len(ks) > 1:
+                # several impls have a method of this name: those on Decimal / i128 that are targets or same file
+                for k in ks:
+                    if k in fns: out.add(k)
+        return out
+    # helper functions that the targets call are translated as well
     grew = True
     while grew:
         grew = False
         for n in list(fns):
-            for c in calls_in(fns[n]):
-                c = c.split("::")[-1]
-                if c not in fns and c in allfns:
-                    fns[c] = allfns[c]; grew = True
+            for c in callees(fns[n]):
+                if c not in fns and c in acc["fns"]:
+                    fns[c] = acc["fns"][c]; grew = True
     # which functions reach RoundingMode::default()
-    uses = set()
+    uses = set(base[2]) if base else set()
     changed = True
     while changed:
         changed = False
         for n, f in fns.items():
             if n in uses: continue
-            cs = calls_in(f)
-            if "RoundingMode::default" in cs or any(c.split("::")[-1] in uses for c in cs):
+            if "RoundingMode::default" in calls_in(f) or (callees(f) & uses) \
+                    or any(a == ("path", ["None"]) and False for a in ()):
                 uses.add(n); changed = True
-    out = ["(* GENERATED by tools/rs2v.py from /repo's current source - do not edit.  One definition per Rust function",
-           "   of the integer kernels of fpdec-core; proofs/GenTie.v proves each equal to the hand-written model. *)",
-           "From FP Require Import Machine.", "",
-           "(* fuel of translated while-loops: any number of iterations the loop can need is enough; proofs/GenTie.v",
-           "   instantiates it with the model's constant *)",
-           "Definition LOOP_FUEL : nat := 4.", ""]
-    fconsts = {}
+    out = list(header)
+    fconsts = dict(base[3]) if base else {}
     for cn, (t, e) in consts.items():
         try:
             if isinstance(t, tuple) and t[0] == "arr":
@@ -1476,20 +1988,29 @@ def main():
         except Unsupported as ex:
             status["failed"]["const " + cn] = str(ex)
     out.append("")
-    # dependency order
     order, seen = [], set()
 
     def visit(n):
         if n in seen or n not in fns: return
         seen.add(n)
-        for c in sorted(calls_in(fns[n])):
-            visit(c.split("::")[-1])
+        for c in sorted(callees(fns[n])):
+            visit(c)
         order.append(n)
-    for rel, names in TARGETS:
+    for rel, names in targets:
         for n in names: visit(n)
     for n in list(fns): visit(n)
-    sigs = {n: dict(params=f["params"], ret=f["ret"]) for n, f in fns.items()}
-    ok = set()
+
+    def sig_of(f):
+        st = f.get("self_ty")
+        a = f.get("assoc")
+        return dict(params=[(n, norm_ty(t, st, a)) for n, t in f["params"]], ret=norm_ty(f["ret"], st, a), self_ty=st)
+    sigs = dict(base[1]) if base else {}
+    for n, f in fns.items():
+        try:
+            sigs[n] = sig_of(f)
+        except Unsupported as ex:
+            f["body"] = None; f["error"] = str(ex)
+    ok = set(base[1]) if base else set()
     for n in order:
         f = fns[n]
         if f["body"] is None:
@@ -1497,7 +2018,11 @@ def main():
         try:
             avail = {k: v for k, v in sigs.items() if k in ok or k == n}
             tr = Fn(f, avail, fconsts, uses)
+            tr.impl_consts = acc["impl_consts"]
+            tr.fuel_name = "LOOP_FUEL" if unit == "core" else "FUEL_" + coq_name(n)[2:]
             text = tr.translate()
+            if unit != "core" and tr.loops:
+                out.append("Definition %s : nat := %d." % (tr.fuel_name, FUELS.get(n, 64)))
             out.append("(* %s :: %s *)" % (f["file"], n))
             out.append(text)
             ok.add(n); status["translated"].append(n)
@@ -1505,24 +2030,59 @@ def main():
             status["failed"][n] = str(ex)
         except Exception as ex:     # a bug of the translator must not look like a translation
             status["failed"][n] = "translator error: %r" % (ex,)
-    target_names = {n for _, names in TARGETS for n in names}
+    status["fn_info"] = {n: dict(file=fns[n]["file"], impl=fns[n].get("impl"), macro=fns[n].get("macro")) for n in status["translated"]}
+    status["impl_blocks"] = acc.get("impl_blocks", {})
+    target_names = {n for _, names in targets for n in names}
     helpers = [n for n in status["translated"] if n not in target_names]
     status["helpers"] = helpers
     out.append("(* helper functions the targets call that the model does not name: the tie tactics unfold them *)")
-    out.append("Ltac unfold_helpers := %s." % ("unfold %s" % ", ".join("g_" + h for h in helpers) if helpers else "idtac"))
-    text = "\n".join(out) + "\n"
-    text = validate(out, status)
-    old = open(OUT).read() if os.path.exists(OUT) else None
+    out.append("Ltac unfold_helpers%s := %s." % ("" if unit == "core" else "_" + unit,
+                                                ("unfold %s" % ", ".join(coq_name(h) for h in helpers)) if helpers else "idtac"))
+    if base:
+        # the Decimal-level unit is type-checked against the compiled kernel unit: bring that up to date first
+        import subprocess
+        coqdir = os.path.join(HERE, "..", "coq")
+        if os.path.exists(os.path.join(coqdir, "Makefile")):
+            subprocess.run(["make", "gen/GenCore.vo"], cwd=coqdir, stdout=subprocess.DEVNULL, stderr=subprocess.DEVNULL, timeout=600)
+    text = validate(out, status, deps=[os.path.dirname(out_path)] if base else [])
+    old = open(out_path).read() if os.path.exists(out_path) else None
     if old != text:
-        with open(OUT, "w") as fh: fh.write(text)
+        with open(out_path, "w") as fh: fh.write(text)
     status["changed"] = old != text
-    with open(STATUS, "w") as fh:
-        json.dump(status, fh, indent=1, sort_keys=True)
-    print("rs2v: %d functions translated, %d failed, %d missing; GenCore.v %s" % (
-        len(status["translated"]), len(status["failed"]), len(status["missing"]),
+    print("rs2v[%s]: %d functions translated, %d failed, %d missing; %s %s" % (
+        unit, len(status["translated"]), len(status["failed"]), len(status["missing"]), os.path.basename(out_path),
         "rewritten" if status["changed"] else "unchanged"))
     for n, why in status["failed"].items():
         print("  failed %s: %s" % (n, why))
+    return status, (fns, {k: v for k, v in sigs.items() if k in ok}, uses, fconsts)
+
+
+def main():
+    hdr_core = ["(* GENERATED by tools/rs2v.py from /repo's current source - do not edit.  One definition per Rust function",
+                "   of the integer kernels of fpdec-core; proofs/GenTie*.v prove each equal to the hand-written model. *)",
+                "From FP Require Import Machine.", "",
+                "(* fuel of translated while-loops: any number of iterations the loop can need is enough; the tie lemmas",
+                "   instantiate it with the model's constant *)",
+                "Definition LOOP_FUEL : nat := 4.", ""]
+    st_core, base = generate(TARGETS, FILE_CONSTS, OUT, hdr_core, "core")
+    hdr_dec = ["(* GENERATED by tools/rs2v.py from /repo's current source - do not edit.  The Decimal-level functions of the",
+               "   crate fpdec (src/), in terms of the translated kernels of GenCore.v; proofs/GenTieDec*.v prove each equal",
+               "   to the hand-written model. *)",
+               "From FP Require Import Machine GenCore.", "",
+               "(* enum DecimalError (src/errors.rs): only the variants the translated functions name *)",
+               "Inductive derr := E_InternalOverflow | E_DivisionByZero | E_MaxNFracDigitsExceeded | E_InfiniteValue | E_NotANumber.", ""]
+    try:
+        st_dec, _ = generate(DEC_TARGETS, [], OUT_DEC, hdr_dec, "dec", base)
+    except Exception as ex:
+        st_dec = {"translated": [], "failed": {"GenDec.v": "translator error: %r" % (ex,)}, "missing": []}
+        print("rs2v[dec]: translator error %r" % (ex,))
+    status = dict(st_core)
+    status["dec"] = st_dec
+    with open(STATUS, "w") as fh:
+        json.dump(status, fh, indent=1, sort_keys=True)
+    print("rs2v: %d functions translated, %d failed, %d missing" % (
+        len(st_core["translated"]) + len(st_dec["translated"]), len(st_core["failed"]) + len(st_dec["failed"]),
+        len(st_core["missing"]) + len(st_dec["missing"])))
     return 0
 
 
